@@ -28,8 +28,13 @@ Explained(r) == LET h == Lines(r) IN
                 /\ NonInterference(r.obs)
 
 Class(r) == LET h == Lines(r)  n == Len(r.obs) IN
-   IF \E k \in 1..n : r.obs[k].kind \notin {"err", "nogo", "name"}
-      THEN (CHOOSE k \in 1..n : r.obs[k].kind \notin {"err", "nogo", "name"}) \* index; kind read in python
+   IF \E k \in 1..n : r.obs[k].kind \in {"panic", "hang"}
+      THEN (CHOOSE k \in 1..n : r.obs[k].kind \in {"panic", "hang"})   \* index; kind read in python
+   ELSE IF /\ ~WellFormed(h) /\ WellFormed(AsText(h))
+           /\ \A k \in 1..n : r.obs[k].kind \in {"err", "nogo", "name", "other"}
+      THEN -8         \* a later "sentinel ..." line changes the result
+   ELSE IF \E k \in 1..n : r.obs[k].kind \notin {"err", "nogo", "name"}
+      THEN (CHOOSE k \in 1..n : r.obs[k].kind \notin {"err", "nogo", "name"})
    ELSE IF \E k \in 1..n : ~r.obs[k].lenok THEN -1
    ELSE IF /\ WellFormed(h)
            /\ \E i \in 1..Len(h) : h[i].pc = "okpath"
@@ -39,8 +44,6 @@ Class(r) == LET h == Lines(r)  n == Len(r.obs) IN
            /\ EndIdx(h) <= Len(h) /\ h[EndIdx(h)].s = "elided"
            /\ \A k \in 1..n : r.obs[k].kind = "err"
       THEN -6                                         \* a deep stack (elision line) is refused
-   ELSE IF ~WellFormed(h) /\ WellFormed(AsText(h)) /\ \E k \in 1..n : ~Allowed(h, r.vid, r.obs[k])
-      THEN -8         \* a later "sentinel ..." line changes the name
    ELSE IF /\ \A k \in 1..n : Allowed(h, r.vid, r.obs[k])
            /\ NonInterference(SelectSeq(r.obs, LAMBDA o : ~o.pathpc))
       THEN -7         \* names differ only between renderings with / without " pc=" in a path
